@@ -100,18 +100,27 @@ CHUNK_OPS = KVEC_OPS | KLOC_OPS | KIV_OPS
 
 
 @functools.lru_cache(maxsize=8)
-def _build_chunk_cached(key, ws, we, wst_sym):
-    """the same transcript built on the sequence chunk [ws, we) (strand wst) of the chromosome of length <P>"""
-    from inscripta.biocantor.io.parser import seq_chunk_to_parent
+def _build_chunk_cached(key, ws, we, wst_sym, via_lift=False):
+    """the same transcript built on the sequence chunk [ws, we) (strand wst) of the chromosome of length <P>;
+    `via_lift` (lines marked ` @l`): the transcript is first built on the whole chromosome, asked every argument-less
+    question (harness/warm.py) and only then brought onto the chunk with `liftover_to_parent_or_seq_chunk_parent` - the
+    same mathematical object, reached through the library's own derivation"""
+    from inscripta.biocantor.io.parser import seq_chunk_to_parent, seq_to_parent
     tk = Toks(key.split())
     plen, st, exons, cds = parse_tx_tokens(tk)
     try:
-        n = max(plen or 0, we)
+        n = max([plen or 0, we] + [e for _, e in exons])
         seq = ("ACGT" * (n // 4 + 1))[:n]
         parent = seq_chunk_to_parent(seq[ws:we], "chr1", ws, we, SYM[wst_sym])
         kw = {}
         if cds is not None:
             kw = cds_kwargs(cds, st, tk.frames)
+        if via_lift:
+            from harness import warm
+            whole = TranscriptInterval([s for s, _ in exons], [e for _, e in exons], st,
+                                       parent_or_seq_chunk_parent=seq_to_parent(seq, seq_id="chr1"), **kw)
+            warm.ask_everything(whole)
+            return whole.liftover_to_parent_or_seq_chunk_parent(parent), None
         return TranscriptInterval([s for s, _ in exons], [e for _, e in exons], st,
                                   parent_or_seq_chunk_parent=parent, **kw), None
     except RecursionError:
@@ -120,9 +129,9 @@ def _build_chunk_cached(key, ws, we, wst_sym):
         return None, exc_token(e)
 
 
-def impl_chunk_op(op, key, tk):
+def impl_chunk_op(op, key, tk, via_lift=False):
     ws, we, wst = tk.int(), tk.int(), tk.next()
-    tx, err = _build_chunk_cached(key, ws, we, wst)
+    tx, err = _build_chunk_cached(key, ws, we, wst, via_lift)
     if err is not None:
         return err
 
@@ -156,7 +165,13 @@ def impl_chunk_op(op, key, tk):
     return guarded(go)
 
 
+LIFT_MARK = " @l"
+
+
 def impl_tx_op(line):
+    via_lift = line.endswith(LIFT_MARK)
+    if via_lift:
+        line = line[:-len(LIFT_MARK)]
     toks = line.split()
     tk = Toks(toks)
     op = tk.next()
@@ -166,7 +181,7 @@ def impl_tx_op(line):
     if op in CHUNK_OPS:
         # the chunk-built twin is addressed by its own ops (kc2t … = the chromosome-level methods of the twin,
         # whose required answers are those of the chromosome-built transcript: Props/C06.lean chunk_built_*)
-        return impl_chunk_op(op, key, tk)
+        return impl_chunk_op(op, key, tk, via_lift)
     tx, err = _build_cached(key)
     if err is not None:
         return err
